@@ -87,6 +87,89 @@ def rnd_s(r, captured=None) -> str:
     return f"c:{frac_s(captured)}"
 
 
+# ------------------------------------------------------------------ independent exact reference of snap_grid
+def _maybe_int_exact(x: Fraction, tol: Fraction) -> Fraction:
+    w = Fraction(math.trunc(x))
+    p = x - w
+    if p > Fraction(1, 2):
+        p -= 1
+        w += 1
+    elif p < Fraction(-1, 2):
+        p += 1
+        w -= 1
+    return w if abs(p) < tol else x
+
+
+def snap_exact(x0: Fraction, x1: Fraction, res: Fraction, off, tol: Fraction):
+    """`(tx, n)` of the documented snap_grid algorithm in exact arithmetic (written from the
+    docstrings of math.py, independent of the Lean model)"""
+    r = abs(res)
+    if off is None:
+        n = max(1, math.ceil(_maybe_int_exact((x1 - x0) / r, tol)))
+        return (x0 if res > 0 else x1), n
+    d = Fraction(off) * r
+    i0 = math.floor(_maybe_int_exact((x0 - d) / r, tol))
+    i1 = math.ceil(_maybe_int_exact((x1 - d) / r, tol))
+    n = max(1, i1 - i0)
+    lo = i0 * r + d
+    return (lo if res > 0 else lo + n * r), n
+
+
+def near_decision(x0, x1, res, off, tol, eps=Fraction(1, 10 ** 9)) -> bool:
+    """is some quotient within `eps` of a floor/ceil or tolerance decision boundary (doubles may differ)"""
+    r = abs(res)
+    d = Fraction(0) if off is None else Fraction(off) * r
+    qs = [(x1 - x0) / r] if off is None else [(x0 - d) / r, (x1 - d) / r]
+    for q in qs:
+        fr = abs(q - round(q))
+        if fr < eps or abs(fr - tol) < eps or abs(fr - Fraction(1, 2)) < eps:
+            return True
+    return False
+
+
+def snap_float_part(R: Run, mods):
+    """float stream for snap_grid: magnitudes up to 2**53, quotients at k +- tiny around integers,
+    half-integers and the tolerance threshold; two-sided oracle against the exact reference"""
+    M = mods[3]
+    rng = R.rng
+    tiny = [0.0, 1e-6, 1e-9, 1e-10, 1e-11, 1e-13, 2.0 ** -40]
+    for _ in range(R.pick(1500, 15000)):
+        res = rng.choice([1.0, 30.0, 0.25, 10.0, 1 / 3, 0.00025, 1e-3, 250.0, 2.0 ** 20]) * rng.choice([1, -1])
+        r = abs(res)
+        mag = rng.choice([1, 1, 1e3, 1e6, 1e9, 2.0 ** 31, 1e12, 2.0 ** 52])
+        k0 = int(rng.uniform(-mag, mag))
+        span = rng.choice([0, 1, 2, 7, 100, 4097])
+        tol = rng.choice([0.01, 0.01, 0.0, 1e-12, 1e-6, 0.125, 0.3])
+        off = rng.choice([None, 0, 0, 0.5, 0.25, 0.3])
+        d = (off or 0) * r
+        e0 = rng.choice(tiny) * rng.choice([1, -1]) + rng.choice([0, 0, 0.5, tol, -tol, 0.37])
+        e1 = rng.choice(tiny) * rng.choice([1, -1]) + rng.choice([0, 0, 0.5, tol, -tol, 0.81])
+        x0 = (k0 + e0) * r + d
+        x1 = (k0 + span + e1) * r + d
+        if rng.random() < 0.3:
+            x0, x1 = math.nextafter(x0, math.inf), math.nextafter(x1, -math.inf)
+        if not (x0 <= x1) or not math.isfinite(x0 + x1):
+            continue
+        case = {"fn": "snap_grid", "x0": x0, "x1": x1, "res": res, "off": off, "tol": tol}
+        try:
+            tx, n = M.snap_grid(x0, x1, res, off, tol)
+        except Exception as e:  # pylint: disable=broad-except
+            R.oracle(False, "snap-grid-raises", case, repr(e))
+            continue
+        F = Fraction
+        fx0, fx1, fr, ft = F(x0), F(x1), F(res), F(tol)
+        lo = F(tx) if res > 0 else F(tx) + n * fr
+        hi = F(tx) + n * fr if res > 0 else F(tx)
+        ulp = F(max(abs(x0), abs(x1), r)) * F(2, 2 ** 52)
+        slack = F(r) * F(1, 10 ** 9) + 4 * ulp
+        ok = lo <= fx0 + ft * F(r) + slack and hi >= fx1 - ft * F(r) - slack and n >= 1
+        R.oracle(ok, "snap-cover", case, f"grid [{float(lo)}, {float(hi)}] n={n} does not cover [{x0}, {x1}] up to tol", sig="snapf")
+        if not near_decision(fx0, fx1, fr, off, ft, eps=F(1, 10 ** 9) + ulp / F(r)):
+            wtx, wn = snap_exact(fx0, fx1, fr, off, ft)
+            R.oracle(n == wn and abs(F(tx) - wtx) <= slack, "snap-grid-exact", case,
+                     f"snap_grid -> ({tx}, {n}) but exact arithmetic gives ({float(wtx)}, {wn})", sig="snapf")
+
+
 # ------------------------------------------------------------------ exact: snap_grid / from_bbox
 def snap_part(R: Run, mods):
     Affine, GeoBox, ov, M, CRS, norm_crs, _pick, resxy_, xy_, AnchorEnum = mods
@@ -107,7 +190,13 @@ def snap_part(R: Run, mods):
                             return f"{frac_s(tx)} {int(nx)}"
 
                         sig = f"snap|{'float' if off is None else 'snap'}|{'pos' if res > 0 else 'neg' if res < 0 else 'zero'}"
-                        R.corr(f"c11 snap {frac_s(x0)} {frac_s(x1)} {frac_s(res)} {opt_s(off, frac_s)} {frac_s(t)}", f, sig=sig)
+                        got = R.corr(f"c11 snap {frac_s(x0)} {frac_s(x1)} {frac_s(res)} {opt_s(off, frac_s)} {frac_s(t)}", f, sig=sig)
+                        if res != 0 and not got.startswith("ERR"):
+                            # two-sided: the real result equals the exact re-computation (incl. |part| == tol edges)
+                            wtx, wn = snap_exact(Fraction(x0), Fraction(x1), Fraction(res), off, Fraction(t))
+                            R.oracle(got == f"{frac_s(wtx)} {wn}", "snap-grid-exact",
+                                     {"fn": "snap_grid", "x0": str(x0), "x1": str(x1), "res": str(res), "off": str(off), "tol": str(t)},
+                                     f"snap_grid -> {got} but exact arithmetic gives {frac_s(wtx)} {wn}", sig="snap-exact")
     # error branches
     for x0, x1, res, off in [(1, 0, 1, 0), (0, 1, 1, 1), (0, 1, 1, -0.5), (0, 1, 0, 0.5), (0, 1, 0, None), (1, 0, -1, 0.25)]:
         R.corr(f"c11 snap {frac_s(x0)} {frac_s(x1)} {frac_s(res)} {opt_s(off, frac_s)} 1/100",
@@ -248,8 +337,13 @@ def exact_cog_part(R: Run, mods):
         else:
             r = rng.choice([32, 10, 2048])
             A = Affine(r, 0, 1500000 + 32 * rng.randint(0, 999), 0, -r, 6500000 - 32 * rng.randint(0, 999))
-        if rng.random() < 0.15:
+        k = rng.random()
+        if k < 0.15:
             A = Affine(0, A.a, A.c, A.a, 0, A.f - 70 * r)  # exact 90-degree turned source
+        elif k < 0.3:
+            A = Affine(-A.a, 0, A.c + nx * r, 0, A.e, A.f)  # mirrored in x (what xx[:, ::-1] yields)
+        elif k < 0.36:
+            A = Affine(A.a, 0, A.c, 0, -A.e, A.f - ny * r)  # south-up
         srcs.append(GeoBox((ny, nx), A, crs))
     for g in srcs:
         src_crs = str(g.crs)
@@ -402,7 +496,9 @@ def make_source(R, mods, lon, lat, src_crs, extent_m, n_pix, rotated):
     res = float(f"{res:.3g}") if rng.random() < 0.7 else res
     ny = max(1, int(n_pix * rng.choice([1, 0.6, 1.5])))
     A = Affine.translation(cx - res * n_pix / 2, cy + res * ny / 2) * Affine.scale(res, -res)
-    if rotated:
+    if rotated == "mirror":
+        A = Affine.translation(cx + res * n_pix / 2, cy + res * ny / 2) * Affine.scale(-res, -res)
+    elif rotated:
         A = Affine.translation(cx, cy) * Affine.rotation(rng.uniform(-40, 40)) * Affine.translation(-res * n_pix / 2, res * ny / 2) * Affine.scale(res, -res)
     return GeoBox((ny, n_pix), A, src_crs)
 
@@ -441,7 +537,7 @@ def float_part(R: Run, mods):
             continue
         if abs(lon) + half_deg / max(0.2, math.cos(math.radians(abs(lat) + half_deg))) > 178:
             continue
-        rotated = rng.random() < 0.3
+        rotated = rng.choice([False, False, False, True, True, "mirror"])
         try:
             g = make_source(R, mods, lon, lat, src_crs, extent, npx, rotated)
         except Exception:  # pylint: disable=broad-except
@@ -502,7 +598,7 @@ def judge(R, mods, g, dst, mode, shape, tight, anchor, tol, rnd, out, spy, case,
 
     Affine, GeoBox, ov, M, CRS, norm_crs, _pick, resxy_, xy_, AnchorEnum = mods
     F = Fraction
-    sig = f"{case['class']}|{'rot' if not g.axis_aligned else 'nup'}"
+    sig = f"{case['class']}|{'rot' if not g.axis_aligned else 'mirror' if g.affine.a < 0 else 'nup'}"
     # hemisphere / zone of utm requests
     if dst.startswith("utm"):
         e = out.crs.epsg
@@ -533,6 +629,10 @@ def judge(R, mods, g, dst, mode, shape, tight, anchor, tol, rnd, out, spy, case,
                  f"source resolution {sr.x},{sr.y} but output {A.a},{A.e}", sig=sig)
     if shape is None and (mode == "fit" or (mode == "auto" and g.crs.units != out.crs.units)):
         R.oracle(A.a > 0 and A.e == -A.a, "fit-positive-square", case, f"output pixel {A.a},{A.e}", sig=sig)
+        if spy.cp is not None and spy.scale is not None and rnd is None:
+            want = (abs(F(spy.cp[0]) / F(spy.scale[0])) + abs(F(spy.cp[1]) / F(spy.scale[1]))) / 2
+            R.oracle(abs(F(A.a) - want) <= want * F(1, 10 ** 12), "fit-resolution-average", case,
+                     f"output pixel {A.a} but the average of the two centre-pixel estimates is {float(want)}", sig=sig)
         if rnd is True:
             R.oracle(A.a == round(A.a, 0), "fit-rounded", case, f"round_resolution=True but pixel size {A.a}")
     if isinstance(mode, tuple) and shape is None:
@@ -600,6 +700,7 @@ def judge(R, mods, g, dst, mode, shape, tight, anchor, tol, rnd, out, spy, case,
 def run(R: Run):
     mods = _import()
     snap_part(R, mods)
+    snap_float_part(R, mods)
     exact_cog_part(R, mods)
     utm_part(R, mods)
     float_part(R, mods)
